@@ -115,9 +115,10 @@ Fail(m, kind) == [m EXCEPT !.err = kind, !.st = "end", !.th = Fresh, !.ch = <<>>
 (* in this fragment expressions contain no function calls; calls are       *)
 (* statements or the right-hand side of set / print, handled below)        *)
 (***************************************************************************)
+\* (a `ref` parameter holds a pointer [t |-> "ref", v |-> global]: reading it reads the global)
 LookupVar(m, n) ==
   LET a == CurAct(m) IN
-  IF n \in DOMAIN a.temps THEN a.temps[n]
+  IF n \in DOMAIN a.temps THEN (IF a.temps[n].t = "ref" THEN m.vars[a.temps[n].v] ELSE a.temps[n])
   ELSE IF n \in DOMAIN m.vars THEN m.vars[n]
   ELSE I(0)          \* (a temporary whose declaration was never executed reads as 0 - with a warning, see Unknown)
 
@@ -125,6 +126,7 @@ RECURSIVE Eval(_, _)
 Eval(m, e) ==
   CASE e.k = "lit" -> e.v
     [] e.k = "var" -> LookupVar(m, e.n)
+    [] e.k = "refarg" -> [t |-> "ref", v |-> e.n]        \* the argument for a `ref` parameter: the variable itself
     [] e.k = "cnt" -> I(Count(m, e.n))
     [] e.k = "ts"  -> I(IF e.n \in DOMAIN m.tof THEN m.turn - m.tof[e.n] ELSE -1)
     \* (the same asked of the knot a variable holds: READ_COUNT(x), TURNS_SINCE(x) with x a divert target value)
@@ -223,9 +225,11 @@ BadArgs(vals) == \E i \in 1..Len(vals) : vals[i].t = "error"
 ArgError(vals) == vals[CHOOSE i \in 1..Len(vals) : vals[i].t = "error"].v
 
 \* assignment to a temporary of the current activation if there is one of that name, else to the global
-Assign(m, x, v) ==
-  LET a == CurAct(m) IN
-  IF x \in DOMAIN a.temps THEN SetAct(m, [a EXCEPT !.temps = Put(a.temps, x, v)])
+Assign(m, x0, v) ==
+  LET a == CurAct(m)
+      through == x0 \in DOMAIN a.temps /\ a.temps[x0].t = "ref"        \* (writing a `ref` parameter writes the global)
+      x == IF through THEN a.temps[x0].v ELSE x0 IN
+  IF ~through /\ x \in DOMAIN a.temps THEN SetAct(m, [a EXCEPT !.temps = Put(a.temps, x, v)])
   ELSE [m EXCEPT !.vars = Put(m.vars, x, v), !.touched = m.touched \cup {x},
                  !.dirty = IF x \in DOMAIN m.vars /\ m.vars[x] = v THEN m.dirty ELSE m.dirty \cup {x}]
 
